@@ -7,7 +7,7 @@ use crate::script::{serve, Ret};
 use serde_json::Value;
 use std::collections::BTreeMap;
 
-#[derive(Clone, Debug, PartialEq)]
+#[derive(Clone, Debug, PartialEq, serde::Serialize, serde::Deserialize)]
 pub enum Action {
     /// initial run on the init peer (empty prev, empty current)
     Kick,
